@@ -204,9 +204,14 @@ class Abs(Logic):
         
     def structureName(self):
         if (self.a.getWidth() == self.r.getWidth()):
-            return f'Abs{self.a.getWidth()}'
+            s = f'Abs{self.a.getWidth()}'
         else:
-            return f'Abs{self.a.getWidth()}_{self.r.getWidth()}'
+            s = f'Abs{self.a.getWidth()}_{self.r.getWidth()}'
+
+        # the optional port changes the interface, so it needs its own module
+        if not(self.getOutPortByName('inverted') is None):
+            s += '_inv'
+        return s
 
 
 class Neg(Logic):
